@@ -50,9 +50,8 @@ def run_in_child(fn, payload, timeout):
         code = 0
         try:
             os.close(r)
-            import faulthandler
-            faulthandler.enable()
-            faulthandler.dump_traceback_later(max(1.0, timeout - 2.0), exit=False)
+            # (no faulthandler.dump_traceback_later here: re-arming it in a forked child of a process that had it armed
+            # waits forever for a watchdog thread that does not exist after fork; the parent enforces the limit)
             try:
                 res = fn(payload)
             except BaseException as e:  # noqa: BLE001
